@@ -81,6 +81,10 @@ func inferPatterns(vars []string, body string) string {
 			}
 			arg1, arg2 := body[a1:e1], body[a2:e2]
 			term := body[start : e2+1]
+			if badPatternTerm(term) {
+				from = start + 1
+				continue
+			}
 			for _, v := range vars {
 				if arg2 == v && !containsAny(arg1, vars) && !seen[term] {
 					seen[term] = true
@@ -123,4 +127,14 @@ func inferPatterns(vars []string, body string) string {
 		}
 	}
 	return strings.Join(pats, " ")
+}
+
+// solvers reject patterns that contain logical connectives or arithmetic comparison
+func badPatternTerm(t string) bool {
+	for _, k := range []string{"(ite ", "(and ", "(or ", "(not ", "(=> ", "(= ", "(< ", "(<= ", "(> ", "(>= ", "(forall ", "(exists ", "(+ ", "(- ", "(* "} {
+		if strings.Contains(t, k) {
+			return true
+		}
+	}
+	return false
 }
